@@ -18,7 +18,7 @@
 (*   "pairs"     every ordered pair of entries from a menu of constructs   *)
 (*   "random"    RandomElement-drawn journals of 1..MaxEntries entries     *)
 (***************************************************************************)
-EXTENDS Journal, Json
+EXTENDS JournalRand, Json
 
 CONSTANTS Family, MaxEntries, WithLex
 
@@ -122,72 +122,8 @@ FamPairs(u) ==
     \cup { Case("pairs", "", << Constructs[i], Constructs[j] >>) : i \in 1..Len(Constructs), j \in 1..Len(Constructs) }
     \cup { Case("triples", "", << Constructs[i], Constructs[j], Constructs[1] >>) : i \in 1..Len(Constructs), j \in 1..Len(Constructs) }
 
-(* ---- random journals (clean region only) ---------------------------------------------------- *)
-Pick(S) == RandomElement(S)
-Coin(n, x) == RandomElement(1..n) = 1          \* x: dummy, keeps TLC from caching the draw
-
-ValuesA == { <<5, 0>>, <<100, 0>>, <<1050, 2>>, <<123456, 2>>, <<1234567, 0>>, <<2500, 0>>, <<1, 0>>, <<99, 2>>, <<100000, 0>>, <<125, 3>>, <<5, 1>> }
-
-RandAmtIn(x, vals, comms) ==
-    LET v    == Pick(vals)
-        n    == Pick({ k \in Notations : NotationOK(v[1], v[2], k) })
-        comm == Pick(comms)
-        lower == comm # 0 /\ Commodities[comm].k = "lower"
-        side == IF comm = 0 \/ lower THEN "R" ELSE Pick({"L", "R"})
-        sym  == comm # 0 /\ Commodities[comm].k = "symbol"
-        sp   == IF comm = 0 THEN FALSE ELSE IF side = "R" /\ ~sym THEN TRUE ELSE Coin(2, x)
-        neg  == Coin(2, x)
-    IN [neg |-> neg, m |-> v[1], sc |-> v[2], n |-> n, comm |-> comm, side |-> side, sp |-> sp,
-        sgn |-> IF side = "L" THEN Pick({"before", "after"}) ELSE "before", plus |-> ~neg /\ Coin(8, x)]
-
-RandAmt(x) == RandAmtIn(x, ValuesA, 0..Len(Commodities))
-
-RandCmt(x) == IF Coin(2, x) THEN [free |-> Pick(1..Len(FreeTexts)), tags |-> <<>>]
-              ELSE LET t1 == Pick(1..Len(Tags)) t2 == Pick(1..Len(Tags))
-                   IN [free |-> 0, tags |-> IF Coin(2, x) \/ t1 = t2 THEN <<t1>> ELSE <<t1, t2>>]
-
-(* Clean region: a lower-case word commodity is only written as the last thing before the end of the
-   line or a comment (trigger lower-commodity-before-operator covers the other placements). *)
-NoLower == 0..(Len(Commodities) - 1)
-RandPost(x) ==
-    LET hasAmt  == ~Coin(4, x)
-        hasCost == hasAmt /\ Coin(5, x)
-        hasAsrt == hasAmt /\ Coin(6, x)
-    IN
-    [ind |-> Pick({1, 2, 4, 4, 4, 8, 0}), st |-> Pick({"", "", "", "*", "!"}), kind |-> Pick({"real", "real", "real", "paren", "bracket"}),
-     acct |-> Pick(1..Len(Accounts)), gap |-> Pick({2, 2, 3, 6}),
-     amt |-> IF hasAmt THEN <<RandAmtIn(x, ValuesA, IF hasCost \/ hasAsrt THEN NoLower ELSE 0..Len(Commodities))>> ELSE <<>>,
-     cost |-> IF hasCost THEN <<[total |-> Coin(2, x), a |-> [RandAmtIn(x + 1, ValuesA, IF hasAsrt THEN NoLower ELSE 0..Len(Commodities)) EXCEPT !.neg = FALSE, !.plus = FALSE]]>> ELSE <<>>,
-     asrt |-> IF hasAsrt THEN <<[strict |-> Coin(3, x), a |-> [RandAmt(x + 2) EXCEPT !.plus = FALSE]]>> ELSE <<>>,
-     cmt |-> IF Coin(4, x) THEN <<RandCmt(x)>> ELSE <<>>]
-
-RandDate(x) == [y |-> Pick({2023, 2024}), m |-> Pick(1..12), d |-> Pick(1..28), sep |-> Pick({"-", "-", "/", "."}), pad |-> ~Coin(4, x)]
-
-RandTx(x) ==
-    LET n == Pick(0..4)
-        hasCmt == Coin(4, x)
-    IN [date |-> RandDate(x), date2 |-> IF Coin(6, x) THEN <<RandDate(x + 1)>> ELSE <<>>,
-        st |-> Pick({"", "", "*", "!"}), code |-> IF Coin(5, x) THEN Pick(1..Len(Codes)) ELSE 0,
-        desc |-> IF Coin(5, x) THEN [kind |-> "pipe", i |-> Pick(1..Len(Descriptions)), j |-> Pick(1..Len(Notes))]
-                 ELSE IF Coin(12, x) THEN [kind |-> "none", i |-> 1, j |-> 1]
-                 ELSE [kind |-> "text", i |-> Pick(1..Len(Descriptions)), j |-> 1],
-        hgap |-> Pick({1, 2, 2, 4}), cmt |-> IF hasCmt THEN <<RandCmt(x)>> ELSE <<>>,
-        posts |-> [i \in 1..n |-> IF Coin(9, x + i) THEN [cline |-> RandCmt(x + i), ind |-> Pick({2, 4})] ELSE RandPost(x + 10 * i)]]
-
-RandDir(x) ==
-    LET k == Pick(1..9) IN
-    CASE k = 1 -> [dir |-> "account", acct |-> Pick(1..Len(Accounts)), cmt |-> IF Coin(3, x) THEN <<RandCmt(x)>> ELSE <<>>]
-      [] k = 2 -> [dir |-> "commodity", comm |-> Pick(1..8), form |-> "plain", fmt |-> 1]
-      [] k = 3 -> [dir |-> "commodity", comm |-> 1, form |-> Pick({"sub", "inline"}), fmt |-> Pick(1..Len(Formats))]
-      [] k = 4 -> [dir |-> "include", path |-> Pick(1..Len(IncludePaths))]
-      [] k = 5 -> [dir |-> "P", date |-> RandDate(x), comm |-> Pick(1..6), a |-> [RandAmtIn(x, ValuesA, 1..6) EXCEPT !.neg = FALSE, !.plus = FALSE]]
-      [] k = 6 -> [dir |-> "Y", y |-> Pick({2023, 2024}), word |-> Pick({"Y", "year"})]
-      [] k = 7 -> [dir |-> "D", fmt |-> Pick(1..Len(Formats))]
-      [] k = 8 -> [dir |-> "comment", c |-> RandCmt(x)]
-      [] OTHER -> [dir |-> "blank"]
-
-RandJournal(x) ==
-    LET n == Pick(1..MaxEntries) IN [i \in 1..n |-> IF Coin(3, x + i) THEN RandDir(x + 100 * i) ELSE RandTx(x + 100 * i)]
+(* ---- random journals: the Rand* operators live in JournalRand.tla ---------------------------- *)
+RandJournal(x) == RandJournalN(x, MaxEntries)
 
 RandCase(x) == [fam |-> "random", trig |-> "", es |-> RandJournal(x), eol |-> Pick({"LF", "LF", "CRLF"}), final |-> ~Coin(4, x)]
 
